@@ -102,6 +102,39 @@ func (f *g2lFn) call(b *binds, e *ast.CallExpr) string {
 		}
 		return f.convert(b, tv.Type, e.Args[0], e)
 	}
+	if f.u.limitedReaders && strings.Join(strings.Fields(show(e.Fun)), "") == "io.Copy" && len(e.Args) == 2 {
+		// io.Copy(w, lr) with lr an *io.LimitedReader: read what the limit allows (lr is updated), then write it to w
+		if id, ok := e.Args[1].(*ast.Ident); ok && f.leanType(f.typeOf(id), e) == "LimitedReader" {
+			data := f.fresh("data")
+			b.add(fmt.Sprintf("let (%s, %s) := limRead %s", data, f.name(id), f.name(id)))
+			b.noteRebound(f.name(id))
+			wfn, ok := f.worldCall("io.Copy")
+			if !ok || f.worldVar == nil {
+				f.bad(e, "io.Copy from a LimitedReader needs a world call \"io.Copy\" in a world function")
+			}
+			f.pure = false
+			r := f.fresh("wr")
+			b.add(fmt.Sprintf("let (%s, world) := %s %s %s world", r, wfn, f.expr(b, e.Args[0]), data))
+			b.noteRebound("world")
+			return r
+		}
+	}
+	if wfn, ok := f.worldCall(strings.Join(strings.Fields(show(e.Fun)), "")); ok {
+		if f.worldVar == nil {
+			f.bad(e, "world call %s in a function not listed in worldFns", show(e.Fun))
+		}
+		args := f.args(b, e)
+		if strings.HasSuffix(wfn, ":recv") {
+			wfn = strings.TrimSuffix(wfn, ":recv")
+			if sel, ok := e.Fun.(*ast.SelectorExpr); ok {
+				args = append([]string{f.expr(b, sel.X)}, args...)
+			}
+		}
+		r := f.fresh("wr")
+		b.add(strings.TrimSpace(fmt.Sprintf("let (%s, world) := %s %s", r, wfn, strings.Join(append(args, "world"), " "))))
+		b.noteRebound("world")
+		return r
+	}
 	if p, ok := f.u.absCalls[strings.Join(strings.Fields(show(e.Fun)), "")]; ok {
 		args := f.args(b, e)
 		if strings.HasSuffix(p, ":recv") {
@@ -368,6 +401,29 @@ func (f *g2lFn) callFn(b *binds, callee *g2lFn, args []string, at ast.Node) stri
 		f.fuel = true
 		pre = append(pre, "fuel")
 	}
+	if _, ok := callee.u.worldFns[callee.goName]; ok {
+		if f.worldVar == nil {
+			f.bad(at, "call to the world function %s from a function that does not thread the world", callee.goName)
+		}
+		if callee.inoutName != "" {
+			f.bad(at, "a world function with an in-out parameter (%s)", callee.goName)
+		}
+		var call string
+		if callee == f {
+			call = "(" + callee.leanName + " \x00ABS\x00fuel " + strings.Join(append(args, "world"), " ") + ")"
+			f.rec, f.fuel, f.pure = true, true, false
+		} else {
+			call = "(" + callee.leanName + " " + strings.Join(append(append(pre, args...), "world"), " ") + ")"
+		}
+		t := call
+		if callee == f || !callee.pure {
+			t = f.bindM(b, call)
+		}
+		r := f.fresh("wr")
+		b.add(fmt.Sprintf("let (%s, world) := %s", r, t))
+		b.noteRebound("world")
+		return r
+	}
 	if callee.inoutName != "" {
 		// the callee returns its mutated map/pointer parameter as an extra last result: rebind the caller's variable
 		target := args[callee.inoutIdx]
@@ -462,6 +518,9 @@ func (f *g2lFn) retTerm(vals string) []string {
 	}
 	if f.effType != "" {
 		vals = "(" + vals + ", effLog)"
+	}
+	if f.worldVar != nil {
+		vals = "(" + vals + ", world)"
 	}
 	return f.retRaw(vals)
 }
@@ -704,6 +763,9 @@ func (f *g2lFn) stmts(list []ast.Stmt, k kont) []string {
 	case *ast.LabeledStmt:
 		return f.stmts(append([]ast.Stmt{s.Stmt}, list[1:]...), k)
 	case *ast.DeferStmt:
+		if sel, ok := s.Call.Fun.(*ast.SelectorExpr); ok && f.u.ignoreCalls[sel.Sel.Name] {
+			return rest()
+		}
 		fl, ok := s.Call.Fun.(*ast.FuncLit)
 		if !ok || len(s.Call.Args) != 0 || f.deferBody != nil || !f.named || f.inLoop != nil || containsReturn(fl.Body) {
 			f.bad(s, "defer (only a leading `defer func() {…}()` over the named results is supported)")
@@ -743,7 +805,7 @@ func (f *g2lFn) shareK(k kont, uses int, vars []*types.Var, pre *[]string) kont 
 	name := f.fresh("k")
 	params, argl := []string{}, []string{}
 	for _, v := range vars {
-		params = append(params, fmt.Sprintf("(%s : %s)", f.varName(v), f.leanType(v.Type(), f.fd)))
+		params = append(params, fmt.Sprintf("(%s : %s)", f.varName(v), f.varType(v, f.fd)))
 		argl = append(argl, f.varName(v))
 	}
 	if len(params) == 0 {
@@ -813,6 +875,13 @@ func (f *g2lFn) assignedOuter(nodes []ast.Node, before token.Pos) []*types.Var {
 			case *ast.IncDecStmt:
 				add(n.X)
 			case *ast.CallExpr:
+				if f.worldVar != nil && f.isWorldCall(n) && f.worldVar.Pos() < before && !seen[f.worldVar] {
+					seen[f.worldVar] = true
+					out = append(out, f.worldVar)
+				}
+				if f.u.limitedReaders && strings.Join(strings.Fields(show(n.Fun)), "") == "io.Copy" && len(n.Args) == 2 {
+					add(n.Args[1])
+				}
 				// a call to a local closure assigns to the captured variables it modifies
 				if id, ok := n.Fun.(*ast.Ident); ok {
 					if cl, ok := f.closures[f.p.info.Uses[id]]; ok {
@@ -1443,7 +1512,7 @@ func (f *g2lFn) defineClosure(name *ast.Ident, lit *ast.FuncLit) {
 	params := []string{}
 	for _, v := range capturedV {
 		cl.captured = append(cl.captured, f.varName(v))
-		params = append(params, fmt.Sprintf("(%s : %s)", f.varName(v), f.leanType(v.Type(), lit)))
+		params = append(params, fmt.Sprintf("(%s : %s)", f.varName(v), f.varType(v, lit)))
 	}
 	for i := 0; i < sig.Params().Len(); i++ {
 		v := sig.Params().At(i)
@@ -1452,8 +1521,8 @@ func (f *g2lFn) defineClosure(name *ast.Ident, lit *ast.FuncLit) {
 	outTypes := []string{}
 	for _, v := range modifiedV {
 		cl.modified = append(cl.modified, f.varName(v))
-		params = append(params, fmt.Sprintf("(%s : %s)", f.varName(v), f.leanType(v.Type(), lit)))
-		outTypes = append(outTypes, f.leanType(v.Type(), lit))
+		params = append(params, fmt.Sprintf("(%s : %s)", f.varName(v), f.varType(v, lit)))
+		outTypes = append(outTypes, f.varType(v, lit))
 	}
 	// compile the body in a fresh control context
 	sResults, sNamed, sRet, sLoop, sBrk, sDefer := f.results, f.named, f.retType, f.inLoop, f.brk, f.deferBody
@@ -1579,4 +1648,48 @@ func (f *g2lFn) typeSwitch(s *ast.TypeSwitchStmt, rest kont) []string {
 		}
 	}
 	return append(lines, "match "+x+" with\n"+strings.Join(arms, "\n"))
+}
+
+// calleeGoName: the table key ("name" or "Type.method") of the package function / method a call refers to ("" if none)
+func (f *g2lFn) calleeGoName(c *ast.CallExpr) string {
+	switch fn := c.Fun.(type) {
+	case *ast.Ident:
+		if _, ok := f.p.info.Uses[fn].(*types.Func); ok {
+			return fn.Name
+		}
+	case *ast.SelectorExpr:
+		if s, ok := f.p.info.Selections[fn]; ok && s.Kind() == types.MethodVal {
+			rt := s.Recv()
+			if p, ok := rt.(*types.Pointer); ok {
+				rt = p.Elem()
+			}
+			if n, ok := rt.(*types.Named); ok && n.Obj().Pkg() == f.p.pkg {
+				return n.Obj().Name() + "." + fn.Sel.Name
+			}
+		}
+	}
+	return ""
+}
+
+// isWorldCall: the call reads or changes the threaded world (a configured external call, or a call to a function
+// of the unit that threads the world itself)
+func (f *g2lFn) isWorldCall(c *ast.CallExpr) bool {
+	if _, ok := f.worldCall(strings.Join(strings.Fields(show(c.Fun)), "")); ok {
+		return true
+	}
+	if n := f.calleeGoName(c); n != "" {
+		if _, ok := f.u.worldFns[n]; ok {
+			return true
+		}
+	}
+	return false
+}
+
+// worldCall: the configured Lean function for an external call that touches the world ("Fn:callee" overrides "callee")
+func (f *g2lFn) worldCall(src string) (string, bool) {
+	if w, ok := f.u.worldCalls[f.goName+":"+src]; ok {
+		return w, true
+	}
+	w, ok := f.u.worldCalls[src]
+	return w, ok
 }
